@@ -268,10 +268,16 @@ func c19Layout(rep *Report, procs []*schema.Process, cfg *schema.AutoLayoutConfi
 	// then settling on `cfg`); the result must be the layout of `cfg` alone
 	c19Layouts++
 	relayout := c19Layouts%3 == 0
-	if relayout {
+	if relayout && c19Layouts%2 == 0 {
 		other := *cfg
 		other.StartX, other.StartY = other.StartX+37, other.StartY+53
 		db.AutoLayout(&other)
+	} else if relayout {
+		// the same configuration object, adjusted between the two calls
+		settled := *cfg
+		cfg.StartX, cfg.ColumnGap, cfg.RowGap = cfg.StartX+37, cfg.ColumnGap+80, cfg.RowGap+60
+		db.AutoLayout(cfg)
+		*cfg = settled
 	}
 	db.AutoLayout(cfg)
 	defs := db.Out()
